@@ -37,6 +37,9 @@ pub struct RustDocument {
     pub(crate) resolving: Vec<(String, Wanted)>,
     /// components of the current file that were already converted ahead of their declaration
     pub(crate) forward_nodes: HashMap<(String, Wanted), Rc<RustNode>>,
+    /// components of the files that were read before this one in the same generation: they can be referred
+    /// to, but they belong to (and are written with) the document that read them
+    pub(crate) known_nodes: Vec<Rc<RustNode>>,
 }
 
 impl RustDocument {
@@ -88,6 +91,7 @@ impl RustDocument {
             soap_services: Vec::new(),
             resolving: Vec::new(),
             forward_nodes: HashMap::new(),
+            known_nodes: Vec::new(),
         }
     }
 
@@ -217,7 +221,7 @@ impl RustDocument {
     ) -> Option<Rc<RustNode>> {
         #[cfg(feature = "verif")]
         let mut verif_guard = crate::verif::LookupGuard::start(xml_name, namespace);
-        let rust_node = self.nodes.iter().find(|node| {
+        let rust_node = self.nodes.iter().chain(self.known_nodes.iter()).find(|node| {
             node.rust_type.xml_name().is_some_and(|n| n == xml_name)
                 && node.in_namespace.as_deref() == namespace
                 && wanted.accepts(&node.rust_type)
